@@ -144,5 +144,9 @@ func featLabels(res *m.Result) []string {
 
 // sampleProg is the evidence sample for a program case.
 func sampleProg(p *m.Program, res *m.Result) map[string]interface{} {
-	return map[string]interface{}{"templates": p.Sources(), "entry": p.Entry, "model_status": res.Status, "model_out": clip(res.Out, 300)}
+	tpls := map[string]string{}
+	for n, s := range p.Sources() {
+		tpls[n] = clip(s, 600)
+	}
+	return map[string]interface{}{"templates": tpls, "entry": p.Entry, "model_status": res.Status, "model_out": clip(res.Out, 300)}
 }
